@@ -47,6 +47,9 @@ def const_table(rel, name, repo=None):
         return _TABLES[key]
     if name not in m.assigns:
         raise TableUnknown(f"{rel}: no module-level binding of {name}")
+    how = _module_level_mutation(m, name)
+    if how:
+        raise TableUnknown(f"{rel}: {name} is {how} at module level: its initialiser is not its value")
     try:
         val = _ast.literal_eval(m.assigns[name])
     except (ValueError, SyntaxError, TypeError):
@@ -58,6 +61,36 @@ def const_table(rel, name, repo=None):
         val = _unlift(ex.module_const(name), f"{rel}::{name}")
     _TABLES[key] = val
     return val
+
+
+def _module_level_mutation(m, name):
+    """the table is built up after its binding (loop / update / second binding at module level)"""
+    import ast as _ast
+    binds = 0
+
+    def walk(stmts):
+        nonlocal binds
+        for st in stmts:
+            if isinstance(st, (_ast.FunctionDef, _ast.AsyncFunctionDef, _ast.ClassDef)):
+                continue
+            for n in _ast.walk(st):
+                if isinstance(n, (_ast.FunctionDef, _ast.AsyncFunctionDef, _ast.ClassDef, _ast.Lambda)):
+                    continue
+                if isinstance(n, _ast.Name) and n.id == name and isinstance(n.ctx, (_ast.Store, _ast.Del)):
+                    binds += 1
+                if isinstance(n, (_ast.Subscript, _ast.Attribute)) and isinstance(n.ctx, (_ast.Store, _ast.Del)) \
+                        and isinstance(n.value, _ast.Name) and n.value.id == name:
+                    return f"stored into (line {n.lineno})"
+                if isinstance(n, _ast.Call) and isinstance(n.func, _ast.Attribute) and isinstance(n.func.value, _ast.Name) \
+                        and n.func.value.id == name and n.func.attr in MUTATORS:
+                    return f"changed by .{n.func.attr}() (line {n.lineno})"
+                if isinstance(n, _ast.AugAssign) and isinstance(n.target, _ast.Name) and n.target.id == name:
+                    return f"augmented (line {n.lineno})"
+        return None
+    r = walk(m.tree.body)
+    if r:
+        return r
+    return f"bound {binds} times" if binds != 1 else None
 
 
 def _unlift(v, what):
@@ -550,10 +583,23 @@ def policy(repo, tier):
     try:
         return _policy(repo, tier)
     except (ops.Unsupported, KeyError, ValueError, TypeError, AttributeError, IndexError, SyntaxError) as e:
-        # a shape of the (changed) tables / documentation this pack does not recognise: undecided, the native replayer decides
-        return {"obligations": [ground_obligation("C07/router.py::tables/module-invariant#tables-evaluate-to-constants", False,
-                                                  f"{type(e).__name__}: {e}"[:300], "tables", kind="module-invariant", backend="ground", definite=False)],
-                "functions": []}
+        # a shape of the (changed) tables / documentation this pack does not recognise: undecided, the native replayer decides.
+        # Every lemma / table / site obligation depends on the tables: they are reported as one undecided group (so that the
+        # vacuity guard of ./check does not call them "missing": they were not dropped, they could not be stated).
+        import json as _json
+        import os as _os
+        groups = set()
+        try:
+            lock = _json.load(open(_os.path.join(_os.path.dirname(_os.path.dirname(_os.path.abspath(__file__))), "obligations.lock.json"))).get("C07", {})
+            for oid in lock:
+                if any(k in oid for k in ("/lemma#", "/module-invariant#", "/policy#", "/call-site#")):
+                    groups.add(oid.split("/", 1)[1].rsplit("/", 1)[0])
+        except (OSError, ValueError):
+            pass
+        why = f"routing tables not evaluable ({type(e).__name__}: {e})"[:300]
+        return {"obligations": [ground_obligation("C07/router.py::tables/module-invariant#tables-evaluate-to-constants", False, why, "tables",
+                                                  kind="module-invariant", backend="ground", definite=False)],
+                "functions": [], "undecided": [{"obligation": "table-dependent obligations: " + " ".join(sorted(groups)), "why": why}]}
 
 
 def _policy(repo, tier):
@@ -803,6 +849,24 @@ def attachments_site(repo, tier):
     return {"obligations": keep, "functions": [dict(rep.info, paths=rep.paths, obligations=len(keep))]}
 
 
-EXTRA = [policy, attachments_site]
+def _guarded(fn, oid, function=None):
+    """an EXTRA never crashes the check: an exception inside pack code on a changed tree is an unrecognised shape -> `unknown`
+    (undecided; the native replayer decides)"""
+    def run(repo, tier):
+        from pyvc.flow import ground_obligation
+        try:
+            return fn(repo, tier)
+        except Exception as e:  # noqa
+            o = ground_obligation(oid, False, f"{type(e).__name__}: {e}"[:300], "pack", definite=False)
+            if function:
+                o.update(kind="out-of-subset", function=function, vcs=0)
+            return {"obligations": [o], "functions": []}
+    run.__name__ = fn.__name__
+    return run
+
+
+EXTRA = [_guarded(policy, "C07/router.py::tables/module-invariant#tables-evaluate-to-constants"),
+         _guarded(attachments_site, "C07/data_types.py::EmailContent.iterate_supported_attachments/out-of-subset",
+                  "sharepoint2text/parsing/extractors/data_types.py::EmailContent.iterate_supported_attachments")]
 
 REPLAY_UNKNOWN = True    # undecided / out-of-subset items are searched natively (replay) before being reported UNDECIDED
